@@ -424,7 +424,7 @@ func xExpr(e xast.Expression) string {
 // canonical shape. ok=false: rejected by goja (why="reject: ...") or outside the subset.
 func GShape(src string) (shape string, why string, ok bool) {
 	curSrc = "(function(){\n" + src + "\n})"
-	prog, err := gparser.ParseFile(nil, "", curSrc, 0)
+	prog, err := safeParse(curSrc)
 	if err != nil {
 		return "", "reject", false
 	}
@@ -454,10 +454,10 @@ func GShape(src string) (shape string, why string, ok bool) {
 
 // GRejects reports whether goja rejects src both as a script and as a function body.
 func GRejects(src string) bool {
-	if _, err := gparser.ParseFile(nil, "", src, 0); err == nil {
+	if _, err := safeParse(src); err == nil {
 		return false
 	}
-	if _, err := gparser.ParseFile(nil, "", "(function(){\n"+src+"\n})", 0); err == nil {
+	if _, err := safeParse("(function(){\n" + src + "\n})"); err == nil {
 		return false
 	}
 	return true
@@ -466,4 +466,14 @@ func GRejects(src string) bool {
 // legacyOctalLike: 017, 08 ... (leading zero followed by a digit) are outside the subset (D5).
 func legacyOctalLike(lit string) bool {
 	return len(lit) > 1 && lit[0] == '0' && isDigit(lit[1])
+}
+
+// safeParse shields the harness from panics of the reference parser (treated as a rejection).
+func safeParse(src string) (prog *gast.Program, err error) {
+	defer func() {
+		if r := recover(); r != nil {
+			prog, err = nil, fmt.Errorf("reference parser panic: %v", r)
+		}
+	}()
+	return gparser.ParseFile(nil, "", src, 0)
 }
